@@ -4,6 +4,7 @@ def b_EnvironmentObstacle_create_node : CR.SrcW.Builder where
   kind := .node
   tag := "?obstacle_role.value + 'Obstacle'"
   xsd := "environmentObstacle"
+  path := []
   parent := ""
   attrs := []
   gattrs := []
@@ -18,7 +19,8 @@ def b_EnvironmentObstacle_create_node_shape : CR.SrcW.Builder where
   key := "EnvironmentObstacleXMLNode.create_node/shape"
   kind := .node
   tag := "shape"
-  xsd := ""
+  xsd := "environmentObstacle"
+  path := ["shape"]
   parent := "EnvironmentObstacleXMLNode.create_node"
   attrs := []
   gattrs := []
